@@ -23,7 +23,7 @@ fn spec(t: Tier) -> Spec {
     Spec {
         id: "C12",
         level: "exploration",
-        rule: format!("pattern = sequence of atoms from {:?} (literals incl. regex metacharacters, * ?, backslash escapes, well-formed bracket expressions with negation/range/class/leading ]/escaped ]/inner [, '/' inside a bracket, stray [ ] !); subject = every non-empty string of <= k characters over {:?}. -lname: one directory of symbolic links whose targets are all the subjects; -name: files named by the '/'-free subjects; -path: the same files, pattern prefixed by the literal directory; -ilname/-iname/-ipath with case folding. Slices: {}; plus every pattern of <= 2 atoms given to -iname and to -name in the same expression; plus -name/-iname on starting points spelled N, ./N, N/, N//, N/., N/.., ., .., N/./., N/../N, N/./, N/.//, N/../, ./, .//, ../ (subject = last path component as given). Environment slice (binary): nine patterns x -name/-iname/-path/-lname on dot-files with POSIXLY_CORRECT set (also empty), LC_ALL=en_US.UTF-8, LANG=C — the selection is fnmatch's without FNM_PERIOD whatever the environment; -lname on /proc/self/cwd and /proc/self/exe (lstat size 0). Long slice: runs of 1..14 `?` (alone, after/before `*`, between literals), 1..14 brackets, two/three stars separated by brackets, `?` or literals, literal patterns of 15..240 bytes, against subjects of 1..14, 20, 40, 100, 140, 160, 200, 240 bytes, for -name, -iname, -path, -lname, -ilname (oracle glibc fnmatch, plus the reference matcher up to 40 bytes). For each (pattern, subject) the real find's selection must equal fnmatch(): glibc fnmatch(3) (C locale, flags 0 / FNM_CASEFOLD) and the reference matcher written from the statement must agree, otherwise the pair is counted as oracle-undecided and not judged. evaluation = (primary, pattern, subject); non-trivial = pattern containing a special atom (not only literals)", ATOMS, SUBJ.iter().map(|c| (*c as char).to_string()).collect::<Vec<_>>(), t.pick("-lname atoms<=3 x k<=3 and 12-atom sub-alphabet<=3 x k<=3; other primaries atoms<=2 x k<=3", "-lname atoms<=4 x k<=3, atoms<=3 x k<=4, sub-alphabet<=5 x k<=3; other five primaries atoms<=3 x k<=3")),
+        rule: format!("pattern = sequence of atoms from {:?} (literals incl. regex metacharacters, * ?, backslash escapes, well-formed bracket expressions with negation/range/class/leading ]/escaped ]/inner [, '/' inside a bracket, stray [ ] !); subject = every non-empty string of <= k characters over {:?}. -lname: one directory of symbolic links whose targets are all the subjects; -name: files named by the '/'-free subjects; -path: the same files, pattern prefixed by the literal directory; -ilname/-iname/-ipath with case folding. Slices: {}; plus every pattern of <= 2 atoms given to -iname and to -name in the same expression; plus -name/-iname on starting points spelled N, ./N, N/, N//, N/., N/.., ., .., N/./., N/../N, N/./, N/.//, N/../, ./, .//, ../ (subject = last path component as given). Tree slice: a directory tree whose paths continue one another's text (T/ab, T/ab/x, T/abc/g, T/abd, T/a/b/c, 'T/a b/y', T/AB/x) walked as one and as several starting points in different orders: -path/-wholename/-ipath with every path, every proper prefix + *, * + every suffix and every path with one character replaced by ?, -name/-iname likewise on the names, all evaluated on every entry in turn (oracle fnmatch). Environment slice (binary): nine patterns x -name/-iname/-path/-lname on dot-files with POSIXLY_CORRECT set (also empty), LC_ALL=en_US.UTF-8, LANG=C — the selection is fnmatch's without FNM_PERIOD whatever the environment; -lname on /proc/self/cwd and /proc/self/exe (lstat size 0). Long slice: runs of 1..14 `?` (alone, after/before `*`, between literals), 1..14 brackets, two/three stars separated by brackets, `?` or literals, literal patterns of 15..240 bytes, against subjects of 1..14, 20, 40, 100, 140, 160, 200, 240 bytes, for -name, -iname, -path, -lname, -ilname (oracle glibc fnmatch, plus the reference matcher up to 40 bytes). For each (pattern, subject) the real find's selection must equal fnmatch(): glibc fnmatch(3) (C locale, flags 0 / FNM_CASEFOLD) and the reference matcher written from the statement must agree, otherwise the pair is counted as oracle-undecided and not judged. evaluation = (primary, pattern, subject); non-trivial = pattern containing a special atom (not only literals)", ATOMS, SUBJ.iter().map(|c| (*c as char).to_string()).collect::<Vec<_>>(), t.pick("-lname atoms<=3 x k<=3 and 12-atom sub-alphabet<=3 x k<=3; other primaries atoms<=2 x k<=3", "-lname atoms<=4 x k<=3, atoms<=3 x k<=4, sub-alphabet<=5 x k<=3; other five primaries atoms<=3 x k<=3")),
         bound: json!({"atoms": ATOMS.len(), "sub_atoms": SUB_ATOMS.len(), "subject_alphabet": SUBJ.len()}),
         assumptions: vec![
             "ASCII only (glibc's C locale is bytewise)".into(),
@@ -556,6 +556,9 @@ fn run(ctx: &mut Ctx) {
     if ctx.shard == 1 % ctx.nshards {
         environment_slice(ctx);
     }
+    if ctx.shard == 2 % ctx.nshards {
+        tree_history_slice(ctx);
+    }
     long_slice(ctx);
     // mixed slice first (patterns of <= 2 atoms, subjects <= 2|3)
     {
@@ -707,6 +710,80 @@ fn roots_slice(ctx: &mut Ctx) {
     }
 }
 
+/// A real directory tree whose paths continue one another's text (T/ab, T/ab/x, T/abc, T/abc/g, T/abd,
+/// T/a/b/c, "T/a b/y"), walked in name order, in reverse order of starting points, and as several
+/// starting points: -path/-wholename/-ipath with every path, every proper prefix + `*`, `*` + every
+/// suffix, and every path with one character replaced by `?`; -name/-iname likewise on the names.
+/// All patterns of one primary are evaluated in one run, each by its own matcher, on every entry in
+/// turn: an answer must not depend on which entry the matcher saw before.
+fn tree_history_slice(ctx: &mut Ctx) {
+    use crate::props::labelled as lb;
+    let t = ctx.sbx.join("T");
+    let _ = crate::sandbox::force_remove(&t);
+    for d in ["T/ab", "T/abc", "T/a/b", "T/a b", "T/AB"] {
+        std::fs::create_dir_all(ctx.sbx.join(d)).unwrap();
+    }
+    for f in ["T/ab/x", "T/abc/g", "T/abd", "T/a/b/c", "T/a b/y", "T/AB/x", "T/ab/abc"] {
+        std::fs::write(ctx.sbx.join(f), b"").unwrap();
+    }
+    std::env::set_current_dir(&ctx.sbx).unwrap();
+    let root_lists: Vec<Vec<&str>> = vec![vec!["T"], vec!["T/ab", "T/abc", "T/abd"], vec!["T/abd", "T/abc", "T/ab", "T/a"], vec!["T/a", "T/a b", "T/ab", "T/AB", "T/abc"]];
+    let all_paths: Vec<String> = lb::list_tree("T").into_iter().map(|(p, _)| p).collect();
+    let mut path_pats: BTreeSet<String> = BTreeSet::new();
+    let mut name_pats: BTreeSet<String> = BTreeSet::new();
+    for p in &all_paths {
+        let name = p.rsplit('/').next().unwrap();
+        for (src, dst) in [(p.as_str(), &mut path_pats), (name, &mut name_pats)] {
+            dst.insert(src.to_string());
+            for i in 1..src.len() {
+                dst.insert(format!("{}*", &src[..i]));
+                dst.insert(format!("*{}", &src[i..]));
+                dst.insert(format!("{}?{}", &src[..i], &src[i + 1..]));
+            }
+        }
+    }
+    let cs = |s: &str| CString::new(s).unwrap();
+    for roots in &root_lists {
+        for (prim, fold, on_path) in [("-path", false, true), ("-wholename", false, true), ("-ipath", true, true), ("-name", false, false), ("-iname", true, false)] {
+            let pats: Vec<&String> = if on_path { path_pats.iter().collect() } else { name_pats.iter().collect() };
+            for chunk in pats.chunks(60) {
+                let tests: Vec<lb::Test> = chunk.iter().map(|p| vec![prim.to_string(), p.to_string()]).collect();
+                let sel = match lb::run_labelled(&[], roots, &["-sorted"], &tests, crate::findrun::default_now()) {
+                    Ok(s) if s.out.code == Ok(0) => s,
+                    Ok(s) => {
+                        ctx.rep.violation(&format!("C12 {prim} on a directory tree: non-zero status / panic"), format!("find {:?}\n{}", s.argv, s.out.brief()), json!({"prop":"C12","mode":"tree"}));
+                        continue;
+                    }
+                    Err((why, out, argv)) => {
+                        ctx.rep.violation(&format!("C12 {prim} on a directory tree: output not attributable"), format!("{why}\nfind {:?}\n{}", argv, out.brief()), json!({"prop":"C12","mode":"tree"}));
+                        continue;
+                    }
+                };
+                ctx.rep.count("tree_history_runs", 1);
+                for root in roots {
+                    for (path, _) in lb::list_tree(root) {
+                        let subject = if on_path { path.as_str() } else { path.rsplit('/').next().unwrap() };
+                        for (k, pat) in chunk.iter().enumerate() {
+                            let Some(want) = g::libc_fnmatch(&cs(pat), &cs(subject), fold) else { continue };
+                            let got = sel.sel[k].contains(&path);
+                            ctx.rep.evaluations += 1;
+                            ctx.rep.nontrivial += 1;
+                            if got != want {
+                                ctx.rep.violation(
+                                    &format!("C12 {prim} {} on an entry of a directory tree (the same pattern and subject are answered right in isolation or not at all)", if want { "does not match but fnmatch does" } else { "matches but fnmatch does not" }),
+                                    format!("find {:?} -sorted ... {prim} {pat:?}: entry {path:?} selected={got}, fnmatch says {want}", roots),
+                                    json!({"prop":"C12","mode":"tree","roots":roots,"prim":prim,"pattern":pat,"path":path}),
+                                );
+                            }
+                        }
+                    }
+                }
+            }
+        }
+    }
+    let _ = crate::sandbox::force_remove(&t);
+}
+
 fn xok_take() -> u64 {
     XOK.with(|x| x.replace(0))
 }
@@ -717,6 +794,10 @@ fn replay(case: &Value, ctx: &mut Ctx) -> Option<String> {
     let mode = Mode::from(case["mode"].as_str()?).unwrap_or(Mode::Name);
     if case["mode"] == "roots" {
         roots_slice(ctx);
+        return ctx.rep.violations.keys().next().cloned();
+    }
+    if case["mode"] == "tree" {
+        tree_history_slice(ctx);
         return ctx.rep.violations.keys().next().cloned();
     }
     if case["mode"] == "mixed" {
